@@ -440,8 +440,15 @@ def judge(ctx, S, sysarg, ustr, vals, dt="f8", scalar=False, cellkey=None, alias
                             pair = f"{g}->{si}"
                     exp = B.from_base(base)
                     big = np.abs(exp[np.isfinite(exp)]) if np.ndim(exp) else np.abs(np.atleast_1d(exp))
-                lim = 3e38 if dt == "f4" else 1e300
-                tiny = 1e-37 if dt == "f4" else 1e-300
+                # the float format of the *result* decides the rounding (integer input comes back as a float of its own
+                # item size: C17's rule); the bound follows it instead of presuming float64
+                res_eps = float(np.finfo(rv.dtype).eps) if rv.dtype.kind in "fc" else eps
+                narrow = rv.dtype.kind in "fc" and np.finfo(rv.dtype).bits // (2 if rv.dtype.kind == "c" else 1) <= 32
+                eps = max(eps, res_eps)
+                lim = 3e38 if (dt == "f4" or narrow) else 1e300
+                tiny = 1e-37 if (dt == "f4" or narrow) else 1e-300
+                if narrow and rv.dtype.itemsize // (2 if rv.dtype.kind == "c" else 1) == 2:
+                    lim, tiny = 6e4, 6.2e-5
                 if not np.all(np.isfinite(exp)) or (big.size and (big.max() > lim or (big[big > 0].size and big[big > 0].min() < tiny))):
                     rec.count("discarded:out-of-float-range")
                     in_range = False
